@@ -160,6 +160,17 @@ let handle = function
       (reverse_ite_cases (mk fuel) (nat_of_int 4000) (expr_of e))
   | L [A "chop"; e; b] -> res_sexp (fun l -> L (List.map sexp_of_expr l)) (chop (mk fuel) (expr_of e) (z_a b))
   | L [A "get_bytes"; e; i; n] -> res_sexp sexp_of_expr (get_bytes (mk fuel) (expr_of e) (z_a i) (z_a n))
+  | L [A "repl_run"; L adds; L queries] ->
+    (* add the constraints one by one; answer: the actual frontend's constraints, the replacement map, the rewritten queries *)
+    let rec go s = function
+      | [] -> Ok s
+      | c :: r -> (match radd s (expr_of c) with Ok s' -> go s' r | Err e -> Err e | Crash k -> Crash k | OutOfFuel -> OutOfFuel) in
+    (match go rblank adds with
+     | Ok s ->
+       L [A "ok"; L (List.map sexp_of_expr s.rcs);
+          L (List.map (fun (k, v) -> L [sexp_of_expr k; sexp_of_expr v]) s.rmap);
+          L (List.map (fun q -> res_sexp sexp_of_expr (rquery s (expr_of q))) queries)]
+     | r -> res_sexp (fun _ -> A "") r)
   | L (A "bal" :: A what :: rest) ->
     let cop_of = function "__eq__" -> CEq | "__ne__" -> CNe | "ULT" -> CULT | "ULE" -> CULE | "UGT" -> CUGT | "UGE" -> CUGE
       | "SLT" -> CSLT | "SLE" -> CSLE | "SGT" -> CSGT | "SGE" -> CSGE | s -> failwith ("cop " ^ s) in
